@@ -146,5 +146,34 @@ def main():
               flush=True)
 
 
+def extra():
+    """Mutations seen only by the oracle-only streams."""
+    import pharmpy.modeling as pm
+    # (A) eta gradient over iiv.names instead of etas.names: models with IOV etas / IOV-first order
+    MUTATIONS['etagrad-iiv-names'] = (
+        'expressions.py', "    d = [y.diff(Expr.symbol(x)) for x in model.random_variables.etas.names]\n",
+        "    d = [y.diff(Expr.symbol(x)) for x in model.random_variables.iiv.names]\n",
+        ['calculate_eta_gradient_expression'])
+    orig = pm.calculate_eta_gradient_expression
+    pm.calculate_eta_gradient_expression = mods_for('etagrad-iiv-names', 'mA')['calculate_eta_gradient_expression']
+    ctx = Ctx('C07', 'quick', 0)
+    c07.gradient_oracle(ctx, 40)
+    pm.calculate_eta_gradient_expression = orig
+    print(('CAUGHT' if ctx.violations else 'MISSED') + ' etagrad-iiv-names: '
+          + str(sorted({v['what'][:70] for v in ctx.violations})), flush=True)
+    # (B) NM-TRAN printer prints `<=` as .LT. (runtime perturbation of the class, /repo untouched)
+    from pharmpy.model.external.nonmem.records import code_record as cr
+    keep = cr.NMTranPrinter._print_LessThan
+    cr.NMTranPrinter._print_LessThan = lambda self, expr: self._do_infix(expr, ".LT.")
+    ctx = Ctx('C07', 'quick', 0)
+    c07.corpus_oracle(ctx, 0)
+    cr.NMTranPrinter._print_LessThan = keep
+    print(('CAUGHT' if ctx.violations else 'MISSED') + ' nmtran-printer-LE-as-LT: '
+          + str(sorted({v['what'][-60:] for v in ctx.violations})), flush=True)
+
+
 if __name__ == '__main__':
-    main()
+    if len(sys.argv) > 2 and sys.argv[2] == 'extra':
+        extra()
+    else:
+        main()
